@@ -119,7 +119,7 @@ func ruleHasBodyGate(c *Ctx, rule string) {
 		}
 	}
 	probes := callsIn(hb, "(*rt.peekingReader).HasContent")
-	c.obF(rule, hb, "probes-undeclared-bodies", len(probes) == 1 && n >= 1, "HasBody probes the stream when no length is declared", "")
+	c.obRF(rule, hb, "probes-undeclared-bodies", len(probes) == 1 && n >= 1, "HasBody probes the stream when no length is declared", "")
 }
 
 func runC06(c *Ctx) {
@@ -139,7 +139,7 @@ func runC06(c *Ctx) {
 	for _, g := range gates {
 		f := p.Fn(g.fn)
 		cts := callsIn(f, g.ctCallee)
-		c.obF("R06.1", f, "parses-content-type", len(cts) == 1, "the gate parses the Content-Type header once", fmt.Sprintf("%d calls of %s", len(cts), g.ctCallee))
+		c.obRF("R06.1", f, "parses-content-type", len(cts) == 1, "the gate parses the Content-Type header once", fmt.Sprintf("%d calls of %s", len(cts), g.ctCallee))
 		if len(cts) != 1 {
 			continue
 		}
@@ -162,7 +162,7 @@ func runC06(c *Ctx) {
 		errorRecorded(c, "R06.2", f, ct, "parse-error-recorded")
 		// admission
 		vcs := callsIn(f, "rt/middleware.validateContentType")
-		c.obF("R06.1", f, "asks-admission", len(vcs) == 1, "the gate asks validateContentType", fmt.Sprintf("%d calls", len(vcs)))
+		c.obRF("R06.1", f, "asks-admission", len(vcs) == 1, "the gate asks validateContentType", fmt.Sprintf("%d calls", len(vcs)))
 		for _, vc := range vcs {
 			v := vc.(*ssa.Call)
 			ok0 := vFieldLoadO(routeEntryT, "Consumes")(v.Call.Args[0])
@@ -213,7 +213,7 @@ func runC06(c *Ctx) {
 				}
 			}
 		}
-		c.obF("R06.1", f, "looks-consumer-up", nl == 1, "the gate selects the consumer by one table lookup", fmt.Sprintf("%d lookups", nl))
+		c.obRF("R06.1", f, "looks-consumer-up", nl == 1, "the gate selects the consumer by one table lookup", fmt.Sprintf("%d lookups", nl))
 	}
 	c.min("R06.1", 14)
 
@@ -234,7 +234,7 @@ func runC06(c *Ctx) {
 	ctc := callsIn(vr, "(*rt/middleware.validation).contentType")
 	rfc := callsIn(vr, "(*rt/middleware.validation).responseFormat")
 	prm := callsIn(vr, "(*rt/middleware.validation).parameters")
-	c.obF("R06.2", vr, "stages", len(ctc) == 1 && len(rfc) == 1 && len(prm) == 1, "validateRequest runs the content-type gate, the response-format gate and parameter binding", fmt.Sprintf("%d/%d/%d", len(ctc), len(rfc), len(prm)))
+	c.obRF("R06.2", vr, "stages", len(ctc) == 1 && len(rfc) == 1 && len(prm) == 1, "validateRequest runs the content-type gate, the response-format gate and parameter binding", fmt.Sprintf("%d/%d/%d", len(ctc), len(rfc), len(prm)))
 	resultEmpty := factLenPositive(vFieldLoad("rt/middleware.validation", "result", nil), false)
 	if len(ctc) == 1 && len(rfc) == 1 && len(prm) == 1 {
 		c.obI("R06.2", prm[0], "bind-after-content-type-gate", dominates(ctc[0], prm[0]) && guardedBy(prm[0], ctc[0], resultEmpty), "parameter binding (and with it the consumer) runs only when the content-type gate recorded no error", "parameters() reachable after a content-type refusal")
@@ -439,7 +439,7 @@ func ruleAddRouteDefaults(c *Ctx, rule, kind string) {
 	}
 	field := kind + "s"
 	sts := fieldStores(f, routeEntryT, field)
-	c.obF(rule, f, "stores-"+field, len(sts) == 1, "the route entry records the final "+field+" list", fmt.Sprintf("%d stores", len(sts)))
+	c.obRF(rule, f, "stores-"+field, len(sts) == 1, "the route entry records the final "+field+" list", fmt.Sprintf("%d stores", len(sts)))
 	for _, st := range sts {
 		miss := pathExists(f, d, st, anyFact(already, noDefault), appended)
 		c.obI(rule, st, "default-always-added", !miss, "the API's default media type is added to the operation's list unless the list as spelled already contains it (case-insensitively) or there is no default", "a path builds the route without the default although it is absent from the list")
